@@ -109,6 +109,8 @@ func DifferentialOut(args []string, stdin string, files map[string]string, outFl
 	want, lerr := lib()
 	if outFlag != "" {
 		args = append(append([]string{}, args...), outFlag, "result.out")
+		// an older, longer result is in the way: the file must be replaced, not overwritten in place
+		Write(dir, "result.out", strings.Repeat("(stale,result,of,an,earlier,run);\n", 200))
 	}
 	r := Run(dir, stdin, args...)
 	if outFlag != "" {
